@@ -76,8 +76,10 @@ def _use(prog, rng, e_hard, e_soft, allow_incomplete_self=None):
         w = rng.pick(templates)
         we = prog.by_name[w]
         args = []
-        for _ in range(we.nparams):
-            if records and rng.chance(600):
+        for k in range(we.nparams):
+            if getattr(we, "param_kinds", None) and we.param_kinds[k] == "int":
+                args.append(str(rng.pick([1, 2, 3, 8])))
+            elif records and rng.chance(600):
                 a = rng.pick(records)
                 e_hard |= prog.by_name[a].complete
                 args.append(a)
@@ -176,6 +178,8 @@ def _gen_record(prog, rng, idx, kw):
         lines.append("    " + (t % f"f{k}") + ";")
     if cpp and kw == "struct" and rng.chance(150):
         lines.append(f"    void m{idx}({name}* o);")
+    if cpp and kw == "struct" and rng.chance(70):
+        lines.append(f"    int wide{idx} : 40;")
     head = f"{kw} {name}" + (" : " + ", ".join(bases) if bases else "")
     if not lines and not cpp:
         lines.append("    int pad;")
@@ -221,12 +225,21 @@ def _gen_template(prog, rng, idx):
         lines.append(f"    virtual void tv{idx}();")
     if rng.chance(100):
         lines.append(f"    ~{name}();")
-    head = f"template <{', '.join('typename ' + p for p in params)}> struct {name}" + (
+    param_kinds = ["type"] * nparams
+    decls = ["typename " + p for p in params]
+    if rng.chance(180):
+        # a non-type parameter: bindgen makes such a template opaque on its own
+        param_kinds.append("int")
+        decls.append(f"int N{idx}")
+        lines.append(f"    int sized{idx}[N{idx}];")
+        nparams += 1
+    head = f"template <{', '.join(decls)}> struct {name}" + (
         " : " + ", ".join(bases) if bases else "")
     body = "\n".join(lines)
     defn = f"{head} {{\n{body}\n}};" if lines else f"{head} {{}};"
-    fwd = f"template <{', '.join('typename ' + p for p in params)}> struct {name};"
+    fwd = f"template <{', '.join(decls)}> struct {name};"
     e = Entity(name, "template", defn, hard, soft, fwd=fwd)
+    e.param_kinds = param_kinds
     e.nparams = nparams
     e.used_any = used_any
     prog.add(e)
@@ -241,9 +254,11 @@ def _gen_typedef(prog, rng, idx):
         we = prog.by_name[w]
         hard = set(we.complete)
         args = []
-        for _ in range(we.nparams):
+        for k in range(we.nparams):
             recs = prog.names(("struct", "union"))
-            if recs and rng.chance(500):
+            if getattr(we, "param_kinds", None) and we.param_kinds[k] == "int":
+                args.append(str(rng.pick([1, 2, 4])))
+            elif recs and rng.chance(500):
                 a = rng.pick(recs)
                 hard |= prog.by_name[a].complete
                 args.append(a)
@@ -267,7 +282,8 @@ def _gen_typedef(prog, rng, idx):
 
 
 def _gen_alias_template(prog, rng, idx):
-    templates = [t for t in prog.names(("template",)) if prog.by_name[t].nparams == 1]
+    templates = [t for t in prog.names(("template",)) if prog.by_name[t].nparams == 1 and
+                 getattr(prog.by_name[t], "param_kinds", ["type"]) == ["type"]]
     if not templates:
         return _gen_template(prog, rng, idx)
     w = rng.pick(templates)
